@@ -370,7 +370,7 @@ func (s *Sim) randAdversarial() idpBehaviour {
 	case 10, 11:
 		b.OddClaims = 1 + r.Intn(48)
 	case 0, 1, 2:
-		b.Sig = pick(r, []string{"none", "hs-pub", "foreign", "tampered", "stripped", "nokid", "unknownkid", "garbage", "twoseg"})
+		b.Sig = pick(r, []string{"none", "hs-pub", "foreign", "tampered", "stripped", "nokid", "unknownkid", "garbage", "twoseg", "bare-claims"})
 	case 3:
 		b.Aud = pick(r, []string{"absent", "foreign", "nearmiss"})
 	case 4:
